@@ -266,10 +266,11 @@ def build_harness(race=False):
     bdir = os.path.join(OUT, "build")
     os.makedirs(bdir, exist_ok=True)
     os.makedirs(os.path.join(OUT, "bin"), exist_ok=True)
-    modfile = os.path.join(bdir, "go.mod")
+    # per process: concurrent checks may be building against different trees (VERIF_REPO)
+    modfile = os.path.join(bdir, "ruxh-%d.mod" % os.getpid())
     src = open(os.path.join(VERIF, "harness", "go.mod.tmpl")).read().replace("@REPO@", REPO)
     open(modfile, "w").write(src)
-    shutil.copy(os.path.join(REPO, "go.sum"), os.path.join(bdir, "go.sum"))
+    shutil.copy(os.path.join(REPO, "go.sum"), modfile[:-4] + ".sum")
     binp = os.path.join(OUT, "bin", "ruxh-" + key + ("-%d" % os.getpid()))
     cmd = ["go", "build", "-modfile=" + modfile, "-tags", "verif", "-o", binp]
     if race:
@@ -278,6 +279,11 @@ def build_harness(race=False):
     t0 = time.time()
     p = subprocess.run(cmd, cwd=os.path.join(VERIF, "harness"), env=go_env(), stdout=subprocess.PIPE,
                        stderr=subprocess.STDOUT, text=True)
+    for f in (modfile, modfile[:-4] + ".sum"):
+        try:
+            os.remove(f)
+        except OSError:
+            pass
     if p.returncode != 0:
         raise Inconclusive("harness build failed (tag verif, repo %s):\n%s" % (REPO, p.stdout[-3000:]))
     log("  built harness (%s) in %.1fs" % (key, time.time() - t0))
